@@ -43,3 +43,132 @@ def log_genotype_allele_prior(genotype: A[iN, 1], variable_allele: int, unique_h
         ax_exp_log(variable_alpha / sum_alpha)
     with after_stmt("alphas = calculate_alphas(inbreeding, frequencies)"):
         lemma_fsum_scale(frequencies, alphas, (1 - inbreeding) / inbreeding, 0, unique_haplotypes)
+
+
+@spec
+def LGSUMG(g: A[int, 1], P: int, n: int) -> float:
+    """sum over the distinct alleles first seen at i < n of lgamma(copies + 1)"""
+    decreases(n)
+    if n <= 0:
+        return 0.0
+    return LGSUMG(g, P, n - 1) + ite(FIRST(g, n - 1), lgamma(CNT(g, g[n - 1], P) + 1), 0.0)
+
+
+@spec
+def FPROD(f: A[float, 1], g: A[int, 1], n: int) -> float:
+    """product over the copies i < n of the frequency of allele g[i]"""
+    decreases(n)
+    if n <= 0:
+        return 1.0
+    return FPROD(f, g, n - 1) * f[g[n - 1]]
+
+
+@spec
+def DMSUMC(g: A[int, 1], P: int, al: float, n: int) -> float:
+    """flat dispersion al: sum over distinct alleles first seen at i < n of
+    lgamma(copies + al) - lgamma(copies + 1) - lgamma(al)"""
+    decreases(n)
+    if n <= 0:
+        return 0.0
+    return DMSUMC(g, P, al, n - 1) + ite(FIRST(g, n - 1), lgamma(CNT(g, g[n - 1], P) + al) - (lgamma(CNT(g, g[n - 1], P) + 1) + lgamma(al)), 0.0)
+
+
+@spec
+def DMSUMF(g: A[int, 1], P: int, f: A[float, 1], c: float, n: int) -> float:
+    """per-allele dispersion f[a] * c"""
+    decreases(n)
+    if n <= 0:
+        return 0.0
+    return DMSUMF(g, P, f, c, n - 1) + ite(FIRST(g, n - 1), lgamma(CNT(g, g[n - 1], P) + f[g[n - 1]] * c) - (lgamma(CNT(g, g[n - 1], P) + 1) + lgamma(f[g[n - 1]] * c)), 0.0)
+
+
+@spec_inline
+def CPRIOR_FLAT(g: A[int, 1], P: int, u: int, F: float) -> float:
+    """call / call-exact genotype prior without prior frequencies: multinomial (F == 0) or
+    Dirichlet-multinomial with dispersion (1/u)(1-F)/F per allele, over unordered genotypes"""
+    return ite(F == 0, lgamma(P + 1) - LGSUMG(g, P, P) - P * log(u), lgamma(P + 1) + lgamma(ALPHA(F, 1 / u) * u) - lgamma(P + ALPHA(F, 1 / u) * u) + DMSUMC(g, P, ALPHA(F, 1 / u), P))
+
+
+@spec_inline
+def CPRIOR_FREQ(g: A[int, 1], P: int, f: A[float, 1], u: int, F: float) -> float:
+    """... with prior allele frequencies f: dispersion f[a] (1-F)/F"""
+    return ite(F == 0, lgamma(P + 1) - LGSUMG(g, P, P) + log(FPROD(f, g, P)), lgamma(P + 1) + lgamma(ALPHA(F, FSUM(f, 0, u))) - lgamma(P + ALPHA(F, FSUM(f, 0, u))) + DMSUMF(g, P, f, (1 - F) / F, P))
+
+
+@lemma
+def lemma_dmsum_dosage(d: A[int, 1], g: A[int, 1], P: int, al: float, n: int):
+    requires(P >= 0, n <= P, forall(0, n, lambda j: d[j] == ite(FIRST(g, j), CNT(g, g[j], P), 0)))
+    ensures(DMSUM(d, al, n) == DMSUMC(g, P, al, n))
+    decreases(n)
+    unfold(DMSUM(d, al, n), DMSUMC(g, P, al, n))
+    if n > 0:
+        lemma_dmsum_dosage(d, g, P, al, n - 1)
+        lemma_cnt_pos(g, P, n - 1)
+
+
+@lemma(props=["C05"])
+def lemma_assemble_prior_is_flat_call_prior(d: A[int, 1], g: A[int, 1], P: int, u: int, F: float):
+    """C05: the assemble prior (over the dosage of a genotype, all u = exp(lu) possible haplotypes equally
+    frequent) equals the call prior with flat frequencies over u alleles, for the genotype g whose
+    first-occurrence dosage is d"""
+    requires(P >= 1, u >= 1, 0 <= F, F < 1, ISUM(d, 0, P) == P)
+    requires(forall(0, P, lambda j: d[j] == ite(FIRST(g, j), CNT(g, g[j], P), 0)))
+    ensures(LAPRIOR(d, P, log(u), F) == CPRIOR_FLAT(g, P, u, F))
+    lemma_lgsum_dosage(d, g, P, P)
+    if F > 0:
+        lemma_dmsum_dosage(d, g, P, ALPHA(F, 1 / u), P)
+        # exp(log((1-F)/F) - log u) = ((1-F)/F) / u   and   exp(log((1-F)/F) - log u + log u) = (1-F)/F
+        ax_log_div((1 - F) / F, u)
+        ax_exp_log(((1 - F) / F) / u)
+        ax_exp_log((1 - F) / F)
+
+
+@lemma
+def lemma_lgsum_dosage(d: A[int, 1], g: A[int, 1], P: int, n: int):
+    """the log-factorial sum over a dosage array equals the sum over distinct alleles of the genotype"""
+    requires(forall(0, n, lambda j: d[j] == ite(FIRST(g, j), CNT(g, g[j], P), 0)))
+    ensures(LGSUM(d, n) == LGSUMG(g, P, n))
+    decreases(n)
+    unfold(LGSUM(d, n), LGSUMG(g, P, n))
+    ax_lgamma_one()
+    if n > 0:
+        lemma_lgsum_dosage(d, g, P, n - 1)
+
+
+@contract("mchap.calling.prior.log_genotype_prior", machine_ints=True, props=["C05", "C02"])
+def log_genotype_prior(genotype: A[iN, 1], unique_haplotypes: int, inbreeding: float, frequencies: Opt[A[f8, 1]]) -> float:
+    requires(0 <= inbreeding, inbreeding < 1, unique_haplotypes >= 1, len(genotype) >= 1, len(genotype) <= 127)
+    requires(forall(0, len(genotype), lambda i: 0 <= genotype[i] and genotype[i] < unique_haplotypes))
+    requires(implies(frequencies is not None, len(frequencies) == unique_haplotypes and forall(0, unique_haplotypes, lambda a: finite(frequencies[a]) and frequencies[a] >= 0)))
+    requires(implies(frequencies is not None, FSUM(frequencies, 0, unique_haplotypes) > 0))
+    # proved domain: with inbreeding every allele of the genotype has positive prior frequency (lgamma(0) = +inf is not modelled)
+    requires(implies(frequencies is not None and inbreeding > 0, forall(0, len(genotype), lambda i: frequencies[genotype[i]] > 0)))
+    ensures(not isnan(result))
+    # multinomial (F == 0) / Dirichlet-multinomial (F > 0, dispersion frequency x (1-F)/F) over unordered genotypes
+    ensures(implies(frequencies is None, result == CPRIOR_FLAT(genotype, P, unique_haplotypes, inbreeding)))
+    ensures(implies(frequencies is not None, result == CPRIOR_FREQ(genotype, P, frequencies, unique_haplotypes, inbreeding)))
+    with defs():
+        P = len(genotype)
+    with after_stmt("ln_perms = ln_equivalent_permutations(dosage)"):
+        lemma_lgsum_dosage(dosage, genotype, P, P)
+    with before_stmt("prod = 1"):
+        unfold(FPROD(frequencies, genotype, 0))
+    with before_stmt("prod = 0.0"):
+        unfold(DMSUMC(genotype, P, ALPHA(inbreeding, 1 / unique_haplotypes), 0))
+        if frequencies is not None:
+            unfold(DMSUMF(genotype, P, frequencies, (1 - inbreeding) / inbreeding, 0))
+    with loop(0):
+        invariant(0 <= i, i <= ploidy, ploidy == P, prod == FPROD(frequencies, genotype, i), prod >= 0)
+        with head():
+            unfold(FPROD(frequencies, genotype, i + 1))
+    with after_stmt("alphas = calculate_alphas(inbreeding, frequencies)"):
+        lemma_fsum_scale(frequencies, alphas, (1 - inbreeding) / inbreeding, 0, unique_haplotypes)
+    with loop(1):
+        invariant(0 <= i, i <= ploidy, ploidy == P, finite(prod))
+        invariant(implies(frequencies is None, prod == DMSUMC(genotype, P, ALPHA(inbreeding, 1 / unique_haplotypes), i)))
+        invariant(implies(frequencies is not None, prod == DMSUMF(genotype, P, frequencies, (1 - inbreeding) / inbreeding, i)))
+        with head():
+            unfold(DMSUMC(genotype, P, ALPHA(inbreeding, 1 / unique_haplotypes), i + 1))
+            if frequencies is not None:
+                unfold(DMSUMF(genotype, P, frequencies, (1 - inbreeding) / inbreeding, i + 1))
+            lemma_cnt_pos(genotype, P, i)
